@@ -71,19 +71,19 @@ var riskyDecoders = map[string]string{
 }
 
 var trustedThirdParty = map[string]string{
-	"github.com/PuerkitoBio/goquery":               "HTML parser front-end over x/net/html; fuzzed without findings",
-	"github.com/ImVexed/fasturl":                   "ragel URL scanner; fuzzed without findings",
-	"mvdan.cc/xurls/v2":                            "regexp-based; RE2",
-	"github.com/ada-url/goada":                     "cgo WHATWG parser; returns errors",
-	"github.com/gabriel-vasile/mimetype":           "sniffs a bounded prefix",
-	"github.com/CorentinB/warc/pkg/spooledtempfile": "buffer/file abstraction, no parsing",
-	"github.com/google/uuid":                       "no input",
-	"github.com/davecgh/go-spew/spew":              "debug dump before a panic",
-	"github.com/philippgille/gokv/leveldb":         "local store",
-	"github.com/internetarchive/gocrawlhq":         "queue API client",
-	"github.com/pdfcpu/pdfcpu/pkg/pdfcpu/model":    "type definitions only (constants, structs)",
-	"golang.org/x/net/idna":                        "x/ repository, returns errors",
-	"github.com/spf13/viper":                       "configuration",
+	"github.com/PuerkitoBio/goquery":                 "HTML parser front-end over x/net/html; fuzzed without findings",
+	"github.com/ImVexed/fasturl":                     "ragel URL scanner; fuzzed without findings",
+	"mvdan.cc/xurls/v2":                              "regexp-based; RE2",
+	"github.com/ada-url/goada":                       "cgo WHATWG parser; returns errors",
+	"github.com/gabriel-vasile/mimetype":             "sniffs a bounded prefix",
+	"github.com/CorentinB/warc/pkg/spooledtempfile":  "buffer/file abstraction, no parsing",
+	"github.com/google/uuid":                         "no input",
+	"github.com/davecgh/go-spew/spew":                "debug dump before a panic",
+	"github.com/philippgille/gokv/leveldb":           "local store",
+	"github.com/internetarchive/gocrawlhq":           "queue API client",
+	"github.com/pdfcpu/pdfcpu/pkg/pdfcpu/model":      "type definitions only (constants, structs)",
+	"golang.org/x/net/idna":                          "x/ repository, returns errors",
+	"github.com/spf13/viper":                         "configuration",
 	"github.com/prometheus/client_golang/prometheus": "metrics",
 }
 
@@ -363,8 +363,8 @@ func ruleIndex(r *core.Reporter) {
 	// reviewed residue: function → shape substring → reason
 	reviewed := map[string][]struct{ shape, why string }{
 		"internal/pkg/postprocessor/extractor.sortURLs$1": {{"$urls[$", "indices supplied by sort.Slice within [0,len)"}},
-		"internal/pkg/archiver.copyWithTimeout":            {{"[:$src.Read(", "n ≤ len(buf) by the io.Reader contract"}},
-		"pkg/models.(*Item).GetShortID":                    {{"$i.id[:", "upper bound clamped to len(i.id) on the preceding branch; ids come from the queue, not from servers"}},
+		"internal/pkg/archiver.copyWithTimeout":           {{"[:$src.Read(", "n ≤ len(buf) by the io.Reader contract"}},
+		"pkg/models.(*Item).GetShortID":                   {{"$i.id[:", "upper bound clamped to len(i.id) on the preceding branch; ids come from the queue, not from servers"}},
 	}
 	n, discharged, tabled := 0, 0, 0
 	for _, fn := range S {
